@@ -109,7 +109,7 @@ def _cases(draw):
         base = draw(st.text(alphabet=rb.DIGITS[src], min_size=1, max_size=9))
         cls = draw(st.sampled_from(
             ['baddigit', 'dot', 'sign', 'blank', 'eleven', 'letter',
-             'white']))
+             'white', 'unicode']))
         pos = draw(st.integers(0, len(base)))
         if cls == 'baddigit':
             bad = {'BIN': '2', 'OCT': '8', 'HEX': 'G'}[src]
@@ -120,6 +120,15 @@ def _cases(draw):
             s = draw(st.sampled_from(['-', '+'])) + base
         elif cls == 'blank':
             s = base[:pos] + ' ' + base[pos:]
+        elif cls == 'unicode':
+            # characters that int(), str.upper() or normalisation would turn
+            # into digits: full-width and Arabic-Indic digits, the ff
+            # ligature (upper() gives 'FF'), superscripts, full-width letters
+            u = draw(st.sampled_from([u'\uff11', u'\u0661', u'\ufb00',
+                                      u'\xb2', u'\uff21', u'\uff10',
+                                      u'\u0660', u'\u2160']))
+            s = draw(st.sampled_from([base[:pos] + u + base[pos:], u,
+                                      u * 2, base + u]))
         elif cls == 'white':
             # white space other than the blank, at either end or inside
             w = draw(st.sampled_from(['\n', '\t', '\r', u'\xa0', '\n\n',
